@@ -311,7 +311,7 @@ def _register(g):
                "sensor_battery_status", "current_temperature", "target_temperature", "target_temperature_resolution",
                "current_damper_percentage", "spill_active"]
     oset(n + ".getters", ["C10", "C19"], [_fn(g, x) for x in getters])(lambda h: _getters(h, g))
-    oset(n + ".update", ["C10", "C12", "C14"], fz(GEN[g]["update"]))(lambda h: _update(h, g))
+    oset(n + ".update", ["C10", "C12", "C14", "C19"], fz(GEN[g]["update"]))(lambda h: _update(h, g))
     oset(n + ".subscribe", ["C12"], [_fn(g, "subscribe"), _fn(g, "unsubscribe")])(lambda h: _subscribe(h, g))
     oset(n + ".set_power", ["C04", "C11", "C02", "C19"], [_fn(g, "set_power"), _fn(g, GEN[g]["send"])])(lambda h: _set_power(h, g))
     oset(n + ".set_damper_percentage", ["C04", "C11", "C02", "C19"], [_fn(g, "set_damper_percentage"), _fn(g, GEN[g]["send"])])(lambda h: _set_damper(h, g))
